@@ -1,10 +1,15 @@
 /-
   Lemmas about the fixpnt size adapter `fixpnt<n2,r2> = fixpnt<n1,r1>` (UVerif.ConvFixpnt.resize, the limb-list model of
-  fixpnt_impl.hpp:172-211) against the specification UVerif.ConvFixpntSpec.resize (round-half-even of value·2^r2, then wrap / clamp).
+  fixpnt_impl.hpp:172-218, after the four repairs of the size adapter) against the specification UVerif.ConvFixpntSpec.resize (round-half-even of value·2^r2, then wrap / clamp).
 
   * `spec_resize_eq`     : the Rat specification in integer terms (`resizeZ`), so that concrete witnesses are decidable on Int;
-  * `resize_widen_spec`  : widening with the same number of fraction bits = sign extension (value preserved, both modes);
-  * `resize_narrow_spec` : narrowing with fewer fraction bits = the correctly rounded (ties to even) value, wrapped into n2 bits.
+  * `signext_loop_spec`  : `_block = a.bits()` followed by the explicit sign-extension loop = the n2-bit wrap of the source value;
+  * `resize_up_spec`     : r1 ≤ r2 (both width cases): assignment, then `<<= r2 − r1` in the target width = value·2^(r2−r1) wrapped;
+  * `resizeRound_spec`   : r2 < r1 (both width cases, including the shift by the full width, which runs in a block one bit
+                           wider): the correctly rounded (ties to even) value, wrapped into n2 bits;
+  * `resizeM_spec`       : the Modulo code path, every pair of configurations;
+  * `aligned_fits`       : the rounded / scaled integer fits `n1 + (r2 − r1)` bits (the width the Saturate branch compares in);
+  * `resize_spec`        : every pair of configurations, both arithmetic modes.
 -/
 import UVerifProofs.Lemmas.Fixpnt
 import UVerif.Model.ConvFixpnt
@@ -23,6 +28,20 @@ def resizeZ (n1 r1 n2 r2 : Nat) (sat : Bool) (p : Nat) : Nat :=
   else
     let D : Int := ((2 ^ (r1 - r2) : Nat) : Int)
     FixpntSpec.finish n2 sat (x / D + rneInc (x % D) D (x / D))
+
+/-- the exact integer the target has to hold before wrapping / clamping: value · 2^r2 rounded to nearest, ties to even -/
+def alignedZ (n1 r1 r2 : Nat) (p : Nat) : Int :=
+  let x := toSigned n1 p
+  if r1 ≤ r2 then x * ((2 ^ (r2 - r1) : Nat) : Int)
+  else
+    let D : Int := ((2 ^ (r1 - r2) : Nat) : Int)
+    x / D + rneInc (x % D) D (x / D)
+
+theorem resizeZ_eq_aligned (n1 r1 n2 r2 : Nat) (sat : Bool) (p : Nat) :
+    resizeZ n1 r1 n2 r2 sat p = FixpntSpec.finish n2 sat (alignedZ n1 r1 r2 p) := by
+  unfold resizeZ alignedZ
+  simp only
+  split <;> rfl
 
 theorem rne_intCast (z : Int) : rne (z : Rat) = z := by
   have h := rne_int_div z 1 Nat.one_pos
@@ -82,16 +101,15 @@ theorem spec_widen_same {n1 n2 : Nat} (r : Nat) (hn1 : 0 < n1) (hle : n1 ≤ n2)
     have := BB.M2_mono (show n1 - 1 ≤ n2 - 1 by omega)
     rw [clamp_of_range (by omega) (by omega)]
 
-/-- the explicit sign-extension loop after `_block = a.bits()` sets bits that are already set -/
-theorem resize_widen_spec {w n1 n2 : Nat} (r : Nat) (hw : 0 < w) (hn1 : 0 < n1) (hle : n1 ≤ n2) {src : List Nat}
-    (hs : Canon w n1 src) (prev : List Nat) :
-    Canon w n2 (resize w n1 r n2 r src prev) ∧
-    toNat w (resize w n1 r n2 r src prev) = ofSigned n2 (toSigned n1 (toNat w src)) := by
+/-- `_block = a.bits()` followed by the explicit sign-extension loop (which sets bits that are already set): the source value
+    wrapped into n2 bits (sign extension) -/
+theorem signext_loop_spec {w n1 n2 : Nat} (hw : 0 < w) (hn1 : 0 < n1) (hle : n1 ≤ n2) {src : List Nat} (hs : Canon w n1 src) :
+    Canon w n2 (if (decide (n1 < n2) && BB.sign w n1 src) = true then setRange w (BB.assign w n2 n1 src) n1 n2 true
+                else BB.assign w n2 n1 src) ∧
+    toNat w (if (decide (n1 < n2) && BB.sign w n1 src) = true then setRange w (BB.assign w n2 n1 src) n1 n2 true
+             else BB.assign w n2 n1 src) = ofSigned n2 (toSigned n1 (toNat w src)) := by
   have hn2 : 0 < n2 := by omega
   obtain ⟨ca, va⟩ := BB.assign_spec (n := n2) hw hn2 hn1 hs
-  unfold resize
-  rw [if_pos hle]
-  simp only
   by_cases hc : (decide (n1 < n2) && BB.sign w n1 src) = true
   · rw [if_pos hc]
     simp only [Bool.and_eq_true, decide_eq_true_eq] at hc
@@ -110,29 +128,281 @@ theorem resize_widen_spec {w n1 n2 : Nat} (r : Nat) (hw : 0 < w) (hn1 : 0 < n1) 
   · rw [if_neg hc]
     exact ⟨ca, va⟩
 
-/-! ### narrowing with fewer fraction bits -/
+/-! ### at least as many fraction bits in the target: assign, then shift left in the target width -/
 
-/-- `roundingMode(r1−r2)`, arithmetic `>>= r1−r2`, `++`, narrowing `assign`: the source value rounded to the nearest multiple of
-    2^-r2 (ties to even), wrapped into n2 bits -/
-theorem resize_narrow_spec {w n1 r1 n2 r2 : Nat} (hw : 0 < w) (hn2 : 0 < n2) (hlt : n2 < n1) (hr : r2 < r1) (hd : r1 - r2 < n1)
-    (h64 : Fixpnt.Ok w n1) {src : List Nat} (hs : Canon w n1 src) (prev : List Nat) :
-    Canon w n2 (resize w n1 r1 n2 r2 src prev) ∧
-    toNat w (resize w n1 r1 n2 r2 src prev) = ConvFixpntSpec.resize n1 r1 n2 r2 false (toNat w src) := by
-  have hn1 : 0 < n1 := by omega
-  have hrne := Fixpnt.roundUp_rne hw hs hn1 hd (p := toInt w n1 src) rfl
-  obtain ⟨cs, vs⟩ := BB.shr_spec hw hn1 hs hd
-  obtain ⟨ci, vi⟩ := Fixpnt.inc_modEq hw hn1 h64 cs vs (BB.roundingMode w n1 src (r1 - r2))
+/-- `<<= d` of a pattern that is the n-bit wrap of `x`: the n-bit wrap of `x · 2^d` (shifting out high bits is the Modulo rule) -/
+theorem shl_wrap {w n : Nat} (hw : 0 < w) (hn : 0 < n) {t : List Nat} (ht : Canon w n t) {x : Int} (hx : toNat w t = ofSigned n x)
+    {d : Nat} (hd : 0 < d) :
+    Canon w n (BB.shl w n t ((d : Nat) : Int)) ∧ toNat w (BB.shl w n t ((d : Nat) : Int)) = ofSigned n (x * ((2 ^ d : Nat) : Int)) := by
+  have e : BB.shl w n t ((d : Nat) : Int) = BB.shlPos w n t d := by
+    unfold BB.shl
+    rw [if_neg (by omega), if_neg (by omega), Int.toNat_natCast]
+  rw [e]
+  obtain ⟨hc, hv⟩ := BB.shlPos_spec hw hn ht hd
+  refine ⟨hc, ?_⟩
+  rw [hv]
+  apply eq_ofSigned_of_modEq (Nat.mod_lt _ (Nat.two_pow_pos n))
+  refine (modEq_natMod _ n).trans ?_
+  push_cast
+  rw [hx]
+  exact (modEq_ofSigned n x).mul_right _
+
+/-- r1 ≤ r2, any two widths: the source value times 2^(r2−r1), wrapped into n2 bits -/
+theorem resize_up_spec {w n1 r1 n2 r2 : Nat} (hw : 0 < w) (hn1 : 0 < n1) (hn2 : 0 < n2) (hr : r1 ≤ r2) {src : List Nat}
+    (hs : Canon w n1 src) :
+    Canon w n2 (resizeM w n1 r1 n2 r2 src) ∧
+    toNat w (resizeM w n1 r1 n2 r2 src) = ofSigned n2 (toSigned n1 (toNat w src) * ((2 ^ (r2 - r1) : Nat) : Int)) := by
+  unfold resizeM
+  simp only
+  by_cases hle : n1 ≤ n2
+  · rw [if_pos hle, if_neg (by omega)]
+    obtain ⟨ct, vt⟩ := signext_loop_spec hw hn1 hle hs
+    by_cases hlt : r1 < r2
+    · rw [if_pos hlt]
+      exact shl_wrap hw hn2 ct vt (by omega)
+    · rw [if_neg hlt]
+      have e : r2 - r1 = 0 := by omega
+      rw [e, Nat.pow_zero, Nat.cast_one, mul_one]
+      exact ⟨ct, vt⟩
+  · rw [if_neg hle, if_neg (by omega)]
+    obtain ⟨ct, vt⟩ := BB.assign_spec (n := n2) hw hn2 hn1 hs
+    by_cases hlt : r1 < r2
+    · rw [if_pos hlt]
+      exact shl_wrap hw hn2 ct vt (by omega)
+    · rw [if_neg hlt]
+      have e : r2 - r1 = 0 := by omega
+      rw [e, Nat.pow_zero, Nat.cast_one, mul_one]
+      exact ⟨ct, vt⟩
+
+theorem spec_up {n1 r1 n2 r2 : Nat} (hr : r1 ≤ r2) (p : Nat) :
+    ConvFixpntSpec.resize n1 r1 n2 r2 false p = ofSigned n2 (toSigned n1 p * ((2 ^ (r2 - r1) : Nat) : Int)) := by
+  rw [spec_resize_eq]
+  unfold resizeZ FixpntSpec.finish
+  simp only [if_pos hr, Bool.false_eq_true, if_false]
+
+/-! ### fewer fraction bits in the target: round in the source width (one bit more when every source bit is dropped) -/
+
+/-- width of `rawbb`: `src_nbits + (src_rbits - rbits == src_nbits ? 1 : 0)` -/
+def rawWidth (n1 r1 r2 : Nat) : Nat := if r1 - r2 = n1 then n1 + 1 else n1
+
+/-- the rounded quotient of an n1-bit value by 2^k (1 ≤ k) fits the block it is computed in: `++` cannot overflow -/
+theorem rounded_fits {n1 k M : Nat} (hn1 : 0 < n1) (hk : 0 < k) (hM : M = if k = n1 then n1 + 1 else n1) (hkM : k < M)
+    {x : Int} (h1 : -(M2 (n1 - 1)) ≤ x) (h2 : x < M2 (n1 - 1)) (i : Int) (hi0 : 0 ≤ i) (hi1 : i ≤ 1) :
+    -(M2 (M - 1)) ≤ x / ((2 ^ k : Nat) : Int) + i ∧ x / ((2 ^ k : Nat) : Int) + i < M2 (M - 1) := by
+  have hD : (0 : Int) < ((2 ^ k : Nat) : Int) := by exact_mod_cast Nat.two_pow_pos k
+  have hD2 : (2 : Int) ≤ ((2 ^ k : Nat) : Int) := by
+    have : 2 ^ 1 ≤ 2 ^ k := Nat.pow_le_pow_right (by omega) hk
+    exact_mod_cast this
+  have hp := M2_pos (n1 - 1)
+  have hmono : M2 (n1 - 1) ≤ M2 (M - 1) := BB.M2_mono (by split at hM <;> omega)
+  have hlo : -(M2 (n1 - 1)) ≤ x / ((2 ^ k : Nat) : Int) := by
+    apply (Int.le_ediv_iff_mul_le hD).mpr
+    nlinarith
+  refine ⟨by omega, ?_⟩
+  by_cases hkn : k = n1
+  · -- every bit is dropped: the quotient is 0 or -1, the block has n1 + 1 bits
+    rw [if_pos hkn] at hM
+    have hq : x / ((2 ^ k : Nat) : Int) < 1 := by
+      apply Int.ediv_lt_of_lt_mul hD
+      have : M2 (n1 - 1) ≤ ((2 ^ k : Nat) : Int) := by rw [hkn]; exact BB.M2_mono (by omega)
+      omega
+    have h2' : (2 : Int) ≤ M2 (M - 1) := by
+      have : M - 1 = n1 := by omega
+      rw [this]
+      have : 2 ^ 1 ≤ 2 ^ n1 := Nat.pow_le_pow_right (by omega) hn1
+      unfold M2; exact_mod_cast this
+    omega
+  · rw [if_neg hkn] at hM
+    rw [hM] at hkM ⊢
+    have hn : 2 ≤ n1 := by omega
+    have hhalf : M2 (n1 - 1) = 2 * M2 (n1 - 2) := by
+      have := M2_succ (n1 - 2); rwa [show n1 - 2 + 1 = n1 - 1 by omega] at this
+    have hq : x / ((2 ^ k : Nat) : Int) < M2 (n1 - 2) := by
+      apply Int.ediv_lt_of_lt_mul hD
+      have := M2_pos (n1 - 2)
+      nlinarith
+    have := M2_pos (n1 - 2)
+    omega
+
+/-- `rawbb(a.bits())`, `roundingMode(k)`, arithmetic `>>= k`, `++`, `_block = rawbb` with k = r1 − r2 ≥ 1: the source value rounded
+    to the nearest multiple of 2^-r2 (ties to even), wrapped into n2 bits — n2 on either side of n1, k up to and including n1 -/
+theorem resizeRound_spec {w n1 r1 n2 r2 : Nat} (hw : 0 < w) (hn1 : 0 < n1) (hn2 : 0 < n2) (hr : r2 < r1) (hr1 : r1 - r2 ≤ n1)
+    (h64 : Fixpnt.Ok w (rawWidth n1 r1 r2)) {src : List Nat} (hs : Canon w n1 src) :
+    Canon w n2 (resizeRound w n1 r1 n2 r2 src) ∧
+    toNat w (resizeRound w n1 r1 n2 r2 src) = ConvFixpntSpec.resize n1 r1 n2 r2 false (toNat w src) := by
+  unfold resizeRound
+  unfold rawWidth at h64
+  simp only
+  generalize hM : (if r1 - r2 = n1 then n1 + 1 else n1) = M at *
+  generalize hraw : (if r1 - r2 = n1 then BB.assign w (n1 + 1) n1 src else src) = raw
+  have hMpos : 0 < M := by rw [← hM]; split <;> omega
+  have hkM : r1 - r2 < M := by rw [← hM]; split <;> omega
+  -- the block the rounding runs in holds the source value
+  have hrawc : Canon w M raw ∧ toInt w M raw = toInt w n1 src := by
+    by_cases hk : r1 - r2 = n1
+    · rw [if_pos hk] at hM hraw
+      rw [← hM, ← hraw]
+      exact BB.assign_widen hw hn1 (by omega) hs
+    · rw [if_neg hk] at hM hraw
+      rw [← hM, ← hraw]
+      exact ⟨hs, rfl⟩
+  obtain ⟨craw, vraw⟩ := hrawc
+  have hrne := Fixpnt.roundUp_rne hw craw hMpos hkM vraw
+  obtain ⟨cs, vs⟩ := BB.shr_spec hw hMpos craw hkM
+  rw [vraw] at vs
+  obtain ⟨ci, vi⟩ := Fixpnt.inc_modEq hw hMpos h64 cs vs (BB.roundingMode w M raw (r1 - r2))
+  obtain ⟨x1, x2⟩ := BB.toInt_range (w := w) hn1 src
+  obtain ⟨f1, f2⟩ := rounded_fits hn1 (show 0 < r1 - r2 by omega) hM.symm hkM x1 x2
+    (if BB.roundingMode w M raw (r1 - r2) then 1 else 0) (by split <;> omega) (by split <;> omega)
+  -- the pattern after `++` is the rounded value exactly
+  have hexact : toSigned M (toNat w (if BB.roundingMode w M raw (r1 - r2) = true then BB.inc w M (BB.shr w M raw ((r1 - r2 : Nat) : Int))
+      else BB.shr w M raw ((r1 - r2 : Nat) : Int)))
+      = toInt w n1 src / ((2 ^ (r1 - r2) : Nat) : Int) + (if BB.roundingMode w M raw (r1 - r2) then 1 else 0) := by
+    rw [eq_ofSigned_of_modEq ci.2.2 vi]
+    exact toSigned_ofSigned_fits hMpos f1 f2
   have hspec : ConvFixpntSpec.resize n1 r1 n2 r2 false (toNat w src)
-      = ofSigned n2 (toInt w n1 src / ((2 ^ (r1 - r2) : Nat) : Int) + (if BB.roundingMode w n1 src (r1 - r2) then 1 else 0)) := by
+      = ofSigned n2 (toInt w n1 src / ((2 ^ (r1 - r2) : Nat) : Int) + (if BB.roundingMode w M raw (r1 - r2) then 1 else 0)) := by
     unfold ConvFixpntSpec.resize ConvFixpntSpec.fromRat FixpntSpec.finish
     simp only [Bool.false_eq_true, if_false]
     rw [value_scale_down (le_of_lt hr)]
     show ofSigned n2 (rne (((toInt w n1 src : Int) : Rat) / _)) = _
     rw [hrne]
   rw [hspec]
-  unfold resize
-  rw [if_neg (by omega), if_pos (by omega)]
+  obtain ⟨ca, va⟩ := BB.assign_spec (n := n2) hw hn2 hMpos ci
+  exact ⟨ca, by rw [va, hexact]⟩
+
+/-! ### every pair of configurations, Modulo -/
+
+theorem resizeM_spec {w n1 r1 n2 r2 : Nat} (hw : 0 < w) (hn1 : 0 < n1) (hn2 : 0 < n2) (hk : r1 - r2 ≤ n1)
+    (h64 : Fixpnt.Ok w (rawWidth n1 r1 r2)) {src : List Nat} (hs : Canon w n1 src) :
+    Canon w n2 (resizeM w n1 r1 n2 r2 src) ∧
+    toNat w (resizeM w n1 r1 n2 r2 src) = ConvFixpntSpec.resize n1 r1 n2 r2 false (toNat w src) := by
+  by_cases hr : r2 < r1
+  · have e : resizeM w n1 r1 n2 r2 src = resizeRound w n1 r1 n2 r2 src := by
+      unfold resizeM
+      simp only
+      by_cases hle : n1 ≤ n2
+      · rw [if_pos hle, if_pos hr]
+      · rw [if_neg hle, if_pos hr]
+    rw [e]
+    exact resizeRound_spec hw hn1 hn2 hr hk h64 hs
+  · rw [spec_up (by omega)]
+    exact resize_up_spec hw hn1 hn2 (by omega) hs
+
+/-! ### Saturate: the comparison runs on the exact aligned integer -/
+
+theorem spec_eq_aligned (n1 r1 n2 r2 : Nat) (sat : Bool) (p : Nat) :
+    ConvFixpntSpec.resize n1 r1 n2 r2 sat p = FixpntSpec.finish n2 sat (alignedZ n1 r1 r2 p) := by
+  rw [spec_resize_eq, resizeZ_eq_aligned]
+
+/-- dropping every bit of an n-bit value (division by 2^n, ties to even) gives 0 -/
+theorem rne_drop_all {D : Int} {x : Int} (hD : 0 < D) (h1 : -D ≤ 2 * x) (h2 : 2 * x < D) :
+    x / D + rneInc (x % D) D (x / D) = 0 := by
+  unfold rneInc
+  by_cases hx : 0 ≤ x
+  · obtain ⟨e1, e2⟩ := (Int.ediv_emod_unique hD).mpr (show x + D * 0 = x ∧ 0 ≤ x ∧ x < D from ⟨by ring, hx, by omega⟩)
+    rw [e1, e2, if_neg (by omega)]; rfl
+  · obtain ⟨e1, e2⟩ := (Int.ediv_emod_unique hD).mpr (show (x + D) + D * (-1) = x ∧ 0 ≤ x + D ∧ x + D < D from ⟨by ring, by omega, by omega⟩)
+    rw [e1, e2, if_pos]
+    · rfl
+    · by_cases h : 2 * (x + D) > D
+      · exact Or.inl h
+      · exact Or.inr ⟨by omega, by decide⟩
+
+/-- the aligned integer fits `n1 + (r2 − r1)` bits: that width holds every value the Saturate branch compares -/
+theorem aligned_fits {n1 r1 r2 : Nat} (hn1 : 0 < n1) (hk : r1 - r2 ≤ n1) (p : Nat) :
+    -(M2 (n1 + (r2 - r1) - 1)) ≤ alignedZ n1 r1 r2 p ∧ alignedZ n1 r1 r2 p < M2 (n1 + (r2 - r1) - 1) := by
+  obtain ⟨x1, x2⟩ := toSigned_range hn1 p
+  unfold alignedZ
   simp only
-  exact Fixpnt.assign_wrap hw hn2 hn1 (le_of_lt hlt) ci vi
+  by_cases hr : r1 ≤ r2
+  · rw [if_pos hr]
+    have e : M2 (n1 + (r2 - r1) - 1) = M2 (n1 - 1) * ((2 ^ (r2 - r1) : Nat) : Int) := by
+      unfold M2
+      rw [show n1 + (r2 - r1) - 1 = (n1 - 1) + (r2 - r1) by omega, Nat.pow_add]
+      push_cast; ring
+    have hD : (0 : Int) < ((2 ^ (r2 - r1) : Nat) : Int) := by exact_mod_cast Nat.two_pow_pos _
+    rw [e]
+    constructor <;> nlinarith
+  · rw [if_neg hr]
+    have e0 : r2 - r1 = 0 := by omega
+    rw [e0, Nat.add_zero]
+    by_cases hkn : r1 - r2 = n1
+    · have hD : (0 : Int) < ((2 ^ (r1 - r2) : Nat) : Int) := by exact_mod_cast Nat.two_pow_pos _
+      have hDM : ((2 ^ (r1 - r2) : Nat) : Int) = 2 * M2 (n1 - 1) := by
+        rw [hkn]
+        have := M2_succ (n1 - 1); rwa [Nat.sub_add_cancel hn1] at this
+      rw [rne_drop_all hD (by omega) (by omega)]
+      have := M2_pos (n1 - 1)
+      omega
+    · have hi : (0 : Int) ≤ rneInc (toSigned n1 p % ((2 ^ (r1 - r2) : Nat) : Int)) ((2 ^ (r1 - r2) : Nat) : Int) (toSigned n1 p / ((2 ^ (r1 - r2) : Nat) : Int)) ∧
+          rneInc (toSigned n1 p % ((2 ^ (r1 - r2) : Nat) : Int)) ((2 ^ (r1 - r2) : Nat) : Int) (toSigned n1 p / ((2 ^ (r1 - r2) : Nat) : Int)) ≤ 1 := by
+        unfold rneInc; split <;> omega
+      exact rounded_fits hn1 (show 0 < r1 - r2 by omega) (show n1 = if r1 - r2 = n1 then n1 + 1 else n1 by rw [if_neg hkn]) (by omega)
+        x1 x2 _ hi.1 hi.2
+
+/-- the widest blockbinary the adapter instantiates besides source and target: `rawbb` (Modulo path) and the comparison width of
+    the Saturate branch -/
+def wideWidth (n1 r1 r2 : Nat) : Nat := max (rawWidth n1 r1 r2) (n1 + (r2 - r1))
+
+/-- the repaired size adapter, every pair of configurations, both arithmetic modes: the source value rounded to the nearest multiple
+    of 2^-r2 (ties to even), then wrapped (Modulo) or clamped to [maxneg, maxpos] (Saturate) -/
+theorem resize_spec {w n1 r1 n2 r2 : Nat} (hw : 0 < w) (hn1 : 0 < n1) (hn2 : 0 < n2) (hk : r1 - r2 ≤ n1)
+    (h64 : Fixpnt.Ok w (wideWidth n1 r1 r2)) (sat : Bool) {src : List Nat} (hs : Canon w n1 src) (prev : List Nat) :
+    Canon w n2 (resize w n1 r1 n2 r2 sat src prev) ∧
+    toNat w (resize w n1 r1 n2 r2 sat src prev) = ConvFixpntSpec.resize n1 r1 n2 r2 sat (toNat w src) := by
+  have h64r : Fixpnt.Ok w (rawWidth n1 r1 r2) := h64.mono (by unfold wideWidth; omega)
+  have h64W : Fixpnt.Ok w (n1 + (r2 - r1)) := h64.mono (by unfold wideWidth; omega)
+  obtain ⟨cm, vm⟩ := resizeM_spec (n2 := n2) hw hn1 hn2 hk h64r hs
+  obtain ⟨z1, z2⟩ := aligned_fits hn1 hk (toNat w src)
+  rw [spec_eq_aligned] at vm ⊢
+  generalize hz : alignedZ n1 r1 r2 (toNat w src) = z at *
+  have hfalse : FixpntSpec.finish n2 false z = ofSigned n2 z := by unfold FixpntSpec.finish; simp
+  rw [hfalse] at vm
+  unfold resize
+  simp only
+  generalize hW : n1 + (r2 - r1) = W at *
+  have hWpos : 0 < W := by omega
+  by_cases hc : (sat && decide (W > n2)) = true
+  · rw [if_pos hc]
+    simp only [Bool.and_eq_true, decide_eq_true_eq] at hc
+    obtain ⟨hsat, hWn⟩ := hc
+    subst hsat
+    -- the wide Modulo result holds the aligned integer exactly
+    obtain ⟨cc, vc⟩ := resizeM_spec (n2 := W) hw hn1 hWpos hk h64r hs
+    rw [spec_eq_aligned, hz, show FixpntSpec.finish W false z = ofSigned W z by unfold FixpntSpec.finish; simp] at vc
+    have hcz : toInt w W (resizeM w n1 r1 W r2 src) = z := by
+      unfold toInt; rw [vc]; exact toSigned_ofSigned_fits hWpos z1 z2
+    obtain ⟨mp, mpv⟩ := BB.maxpos_toInt (w := w) hw hn2
+    obtain ⟨mn, mnv⟩ := BB.maxneg_toInt (w := w) hw hn2
+    obtain ⟨sp, spv⟩ := BB.assign_widen (n := W) hw hn2 (le_of_lt hWn) mp
+    obtain ⟨sn, snv⟩ := BB.assign_widen (n := W) hw hn2 (le_of_lt hWn) mn
+    rw [mpv] at spv
+    rw [mnv] at snv
+    rw [BB.ge_spec hw hWpos h64W cc sp, BB.le_spec hw hWpos h64W cc sn, spv, snv, hcz]
+    unfold FixpntSpec.finish
+    simp only [if_true]
+    by_cases h1 : FixpntSpec.maxposZ n2 ≤ z
+    · rw [decide_eq_true h1, if_pos rfl, Fixpnt.clamp_le_maxpos h1]
+      refine ⟨mp, ?_⟩
+      rw [← mpv]; unfold toInt; exact (ofSigned_toSigned_of_lt mp.2.2).symm
+    · rw [decide_eq_false h1, if_neg (by simp)]
+      by_cases h2 : z ≤ FixpntSpec.maxnegZ n2
+      · rw [decide_eq_true h2, if_pos rfl, Fixpnt.clamp_le_maxneg h1 h2]
+        refine ⟨mn, ?_⟩
+        rw [← mnv]; unfold toInt; exact (ofSigned_toSigned_of_lt mn.2.2).symm
+      · rw [decide_eq_false h2, if_neg (by simp), Fixpnt.clamp_inside h1 h2]
+        exact ⟨cm, vm⟩
+  · rw [if_neg hc]
+    refine ⟨cm, ?_⟩
+    rw [vm]
+    cases sat
+    · exact hfalse.symm
+    · -- Saturate, but the aligned integer always fits the target: clamp = identity
+      simp only [Bool.true_and, decide_eq_true_eq] at hc
+      unfold FixpntSpec.finish
+      simp only [if_true]
+      have := BB.M2_mono (show W - 1 ≤ n2 - 1 by omega)
+      rw [clamp_of_range (by omega) (by omega)]
 
 end UVerif.ConvFixpnt
